@@ -18,6 +18,7 @@ Data formats that describe the general structure of the data.
 import codecs
 import csv
 import string
+import sys
 import token
 import tokenize
 
@@ -495,6 +496,12 @@ class DataFormat(object):
 
         # TODO: Handle 'none' properly.
         assert result_code is not None
+        if not (0 <= result_code <= sys.maxunicode):
+            raise errors.InterfaceError(
+                "value for %s must be a character code between 0 and %d but is: %s"
+                % (name_for_errors, sys.maxunicode, _compat.text_repr(value)),
+                location,
+            )
         assert result_code >= 0
         result = chr(result_code)
         return result
